@@ -69,6 +69,30 @@ D.update({
  "C20-r3-m3": ("C20", "the deadline check moves to the start of each pass and the bail-out message divides the elapsed time by the pass count", "the time box expiring before the first pass (division by zero)"),
 })
 
+D.update({
+ "C01-r4-m1": ("C01", "`matches!(xtype, Component | AnonymousComponent)` becomes an equality test with Component; anonymous-component declarations fall into `unreachable!()`", "a well-formed anonymous component call inside a for/while body"),
+ "C01-r4-m2": ("C01", "hex literals of at most 16 digits take a fast path through `i64::from_str_radix(..).expect(..)`", "a hex literal with exactly 16 digits and leading digit 8..f"),
+ "C01-r4-m3": ("C01", "`2 ** n` is folded as `(1 << n) mod p` when n fits a usize", "a constant base 2 with a constant exponent of 10^10 or more (e.g. the Fermat inverse `2 ** (0 - 2)` under goldilocks)"),
+ "C02-r4-m1": ("C02", "the arity check of anonymous components loses `|| inputs.len() != signals.len()`", "a named-input anonymous call that names every input and one more (unknown or repeated name)"),
+ "C02-r4-m2": ("C02", "`template custom` definitions are left out of the list of templates to analyse", "pragma custom_templates and a custom template that fails at lifting (duplicate parameter), instantiated or not"),
+ "C02-r4-m3": ("C02", "files below a -L directory are not user inputs, also when named explicitly", "-L <dir> with a named input at or below <dir> and a labelled failure in it"),
+ "C03-r4-m1": ("C03", "the SARIF document is written with one `write` whose count is dropped instead of `write_all`", "--sarif-file and a short write(2) on that file"),
+ "C03-r4-m2": ("C03", "CFG-stage reports are cached by insert; the failure path caches warnings and the error in two calls", "one definition that both shadows a variable and fails to lift (read before declaration)"),
+ "C03-r4-m3": ("C03", "`?` on the compiler-version check returns before definitions, main and includes are recorded", "a named file whose pragma asks for a version newer than 2.1.4"),
+ "C14-r4-m1": ("C14", "dominator sets become u64 bit vectors whose tail mask is zero when the block count is a multiple of 64", "a definition with exactly 64*k basic blocks"),
+ "C14-r4-m2": ("C14", "the frontier block is re-queued once per block with `=` where `|=` was needed", "if/else in a loop, then-branch writes two variables, else-branch a strict subset, and a hash order"),
+ "C14-r4-m3": ("C14", "the unique-variable pass stops renaming log arguments at the first string literal (`map_while`)", "log(\"text\", x) where x is a shadowing or re-declared variable"),
+ "C17-r4-m1": ("C17", "the CFG caches are capped at 64 entries with eviction in HashMap order, next to the untouched 'reports but no CFG = lifting failed' test", "more than 64 templates with CFGs in one run, one instantiated by a template analysed earlier, and a hash order"),
+ "C17-r4-m2": ("C17", "anonymous components are numbered by a process-wide counter consumed in HashMap order", "two templates with anonymous calls and a finding that prints the generated name (named input with `<--`)"),
+ "C17-r4-m3": ("C17", "Expression equality ignores SSA versions while the hash does not", "one value range-checked by Num2Bits and compared by LessThan in two loops sharing one loop variable, and about 1 hasher state in 128"),
+ "C19-r4-m1": ("C19", "a -L library file is matched by file name of the include, directory components ignored", "-L file.circom and an unresolvable include `dir/file.circom`"),
+ "C19-r4-m2": ("C19", "file-stack pushes go through a helper that only accepts `*.circom` (library pushes excepted)", "an included file with another extension, or a *.circom symlink to one"),
+ "C19-r4-m3": ("C19", "`//` comments are blanked one space per character, not per byte", "a line comment with non-ASCII text before an unresolvable include"),
+ "C20-r4-m1": ("C20", "every SSA version of a parameter starts with the parameter's (constant) degree", "a parameter assigned in a loop with a signal factor, read by `<--` after the loop, and a cut in a two-pass window"),
+ "C20-r4-m2": ("C20", "literals get value and degree at lifting, reduced modulo the BN254 prime whatever the curve", "another curve, a literal between the two primes, and a value cut before the literal is visited"),
+ "C20-r4-m3": ("C20", "the time box is measured with SystemTime and `.elapsed().expect(..)`", "the wall clock stepping back between the start of a loop and one of its per-pass checks"),
+})
+
 matrix = {}
 mp = "/verif/seeded/MATRIX.txt"
 if os.path.exists(mp):
